@@ -27,6 +27,7 @@ import (
 	"strings"
 	"time"
 
+	"github.com/klauspost/compress/zstd"
 	digest "github.com/opencontainers/go-digest"
 
 	"github.com/regclient/regclient"
@@ -34,6 +35,7 @@ import (
 	"github.com/regclient/regclient/mod"
 	"github.com/regclient/regclient/pkg/archive"
 	"github.com/regclient/regclient/scheme/reg"
+	"github.com/regclient/regclient/types/platform"
 	"github.com/regclient/regclient/types/ref"
 
 	"verifharness/lib"
@@ -51,13 +53,16 @@ type Case struct {
 	Docker  bool
 	Index   bool
 	Layers  int
-	Plain   bool   // layers are uncompressed tars
+	Plain   bool
+	Zstd    bool   `json:",omitempty"` // layers of the source are zstd-compressed (unless Plain)
 	Empties bool   // history has empty-layer entries
 	NoHist  bool   // config without history
 	Data    bool   // source descriptors carry inline data
 	Refs    bool   // the image has a referrer
 	Target  string // same | repo | reg | dir
 	SrcDir  bool
+	Rebase  bool `json:",omitempty"` // base images old (= the first layer of the image) and new are stored next to the image; the option list starts with the rebase
+	Attest  bool `json:",omitempty"` // the index lists one Docker-style attestation manifest per image (vnd.docker.reference.*)
 	Opts    []Opt
 }
 
@@ -107,6 +112,31 @@ func gunzip(b []byte) []byte {
 	return b
 }
 
+func zst(b []byte) []byte {
+	var buf bytes.Buffer
+	zw, _ := zstd.NewWriter(&buf)
+	_, _ = zw.Write(b)
+	_ = zw.Close()
+	return buf.Bytes()
+}
+func isZstd(b []byte) bool {
+	return len(b) > 4 && b[0] == 0x28 && b[1] == 0xb5 && b[2] == 0x2f && b[3] == 0xfd
+}
+
+// decompress: gzip and zstd by their magic numbers, anything else as it is
+func decompress(b []byte) []byte {
+	if isZstd(b) {
+		zr, err := zstd.NewReader(bytes.NewReader(b))
+		if err != nil {
+			return nil
+		}
+		defer zr.Close()
+		o, _ := io.ReadAll(zr)
+		return o
+	}
+	return gunzip(b)
+}
+
 type imageT struct {
 	manifest []byte
 	mt       string
@@ -132,6 +162,8 @@ func mkImage(c Case, r *lib.Rand, uniq string, arch string) imageT {
 	}
 	if c.Plain {
 		lmt = strings.TrimSuffix(strings.TrimSuffix(lmt, "+gzip"), ".gzip")
+	} else if c.Zstd {
+		lmt = strings.TrimSuffix(strings.TrimSuffix(lmt, "+gzip"), ".gzip") + map[bool]string{true: ".zstd", false: "+zstd"}[c.Docker]
 	}
 	base := time.Date(2021, 3, 4, 5, 6, 7, 0, time.UTC)
 	var diff []string
@@ -141,11 +173,17 @@ func mkImage(c Case, r *lib.Rand, uniq string, arch string) imageT {
 		files := [][2]string{{fmt.Sprintf("app/file-%d.txt", i), fmt.Sprintf("%s-%s-content-%d", uniq, arch, i)}, {"etc/common.conf", fmt.Sprintf("layer=%d", i)}}
 		if i%2 == 1 {
 			files = [][2]string{{"strip/me.txt", fmt.Sprintf("%s-%s-only-%d", uniq, arch, i)}}
+		} else if i == 0 {
+			// a tar archive stored as a file of the layer (what WithFileTarTime rewrites)
+			files = append(files, [2]string{"app/inner.tar", string(mkTar([][2]string{{"inner/a.txt", uniq + "-inner"}}, base.Add(90*time.Minute)))})
 		}
 		uc := mkTar(files, base.Add(time.Duration(i)*time.Hour))
 		blob := uc
 		if !c.Plain {
 			blob = gz(uc)
+			if c.Zstd {
+				blob = zst(uc)
+			}
 		}
 		im.layers = append(im.layers, layerT{blob: blob, uc: uc, mt: lmt})
 		diff = append(diff, sha(uc))
@@ -327,12 +365,12 @@ func audit(get store, d string, depth int, seen map[string]bool) string {
 			if i >= len(cfg.RootFS.DiffIDs) {
 				return fmt.Sprintf("config has %d diff_ids for %d layers", len(cfg.RootFS.DiffIDs), len(m.Layers))
 			}
-			uc := gunzip(lb)
+			uc := decompress(lb)
 			if want := shaA(algOf(cfg.RootFS.DiffIDs[i]), uc); want != cfg.RootFS.DiffIDs[i] {
 				return fmt.Sprintf("diff_id %d is %s, the uncompressed layer hashes to %s", i, cfg.RootFS.DiffIDs[i], want)
 			}
 			compressed := len(lb) > 2 && lb[0] == 0x1f && lb[1] == 0x8b
-			if compressed != (strings.HasSuffix(l.MediaType, "gzip")) {
+			if compressed != (strings.HasSuffix(l.MediaType, "gzip")) || isZstd(lb) != strings.HasSuffix(l.MediaType, "zstd") {
 				return fmt.Sprintf("layer %d media type %s does not match its compression", i, l.MediaType)
 			}
 		}
@@ -393,6 +431,58 @@ func buildOpts(c Case, tgt ref.Ref) ([]mod.Opts, bool) {
 				out = append(out, mod.WithLayerCompression(archive.CompressNone))
 			}
 			noop = false
+		case "tozstd":
+			out = append(out, mod.WithLayerCompression(archive.CompressZstd))
+			if !c.Zstd || c.Plain {
+				noop = false
+			}
+		case "togzip":
+			out = append(out, mod.WithLayerCompression(archive.CompressGzip))
+			if c.Zstd || c.Plain {
+				noop = false
+			}
+		case "cmd":
+			out = append(out, mod.WithConfigCmd([]string{"serve", fmt.Sprint(o.N)}))
+			noop = false
+		case "entrypoint":
+			out = append(out, mod.WithConfigEntrypoint([]string{"/bin/app", fmt.Sprint(o.N)}))
+			noop = false
+		case "expose":
+			out = append(out, mod.WithExposeAdd(fmt.Sprintf("%d/tcp", 8000+o.N)))
+			noop = false
+		case "volume":
+			out = append(out, mod.WithVolumeAdd(fmt.Sprintf("/data%d", o.N)))
+			noop = false
+		case "label2annot":
+			out = append(out, mod.WithLabelToAnnotation())
+			noop = false
+		case "promote":
+			out = append(out, mod.WithAnnotationPromoteCommon())
+			noop = false // may be a no-op for a single image; never claimed as one
+		case "rmcreated":
+			out = append(out, mod.WithLayerRmCreatedBy(*regexp.MustCompile(fmt.Sprintf("^COPY layer-%d$", o.N%max(c.Layers, 1)))))
+			noop = false
+		case "filetime":
+			out = append(out, mod.WithFileTarTime("app/inner.tar", mod.OptTime{Set: t0}))
+			noop = false
+		case "tsmax":
+			out = append(out, mod.WithLayerTimestampMax(t0), mod.WithConfigTimestampMax(t0))
+			noop = false
+		case "cfgplatform":
+			out = append(out, mod.WithConfigPlatform(platform.Platform{OS: "linux", Architecture: "riscv64"}))
+			noop = false
+		case "rebase":
+			rOld, _ := ref.New("a.example/base/img:old")
+			rNew, _ := ref.New("a.example/base/img:new")
+			out = append(out, mod.WithRebaseRefs(rOld, rNew))
+			noop = false
+		case "toreferrers":
+			out = append(out, mod.WithManifestToOCIReferrers())
+			if c.Attest && c.Index && !c.Docker {
+				noop = false
+			}
+		case "buildarg":
+			out = append(out, mod.WithBuildArgRm("SECRET", regexp.MustCompile("^hunter2$")))
 		case "reproducible":
 			out = append(out, mod.WithLayerReproducible())
 			noop = false
@@ -433,7 +523,12 @@ type runResult struct {
 	err    error
 }
 
-func runCase(c Case, tmp string, res *lib.Result) string {
+func runCase(c Case, tmp string, res *lib.Result) (ret string) {
+	defer res.Recover(c)
+	return runCaseRaw(c, tmp, res)
+}
+
+func runCaseRaw(c Case, tmp string, res *lib.Result) string {
 	dir, _ := os.MkdirTemp(tmp, "c13-")
 	defer os.RemoveAll(dir)
 	r := lib.NewRand(c.Seed)
@@ -459,12 +554,83 @@ func runCase(c Case, tmp string, res *lib.Result) string {
 			a.PutManifest("proj/app", "", im.mt, im.manifest)
 			rootBody, rootMT = im.manifest, im.mt
 		}
+		baseEntries := map[string][]any{}
+		baseSingle := map[string][2]string{}
+		if c.Rebase {
+			// old base: the image's first layer with exactly the history that leads to it; new base: another single layer
+			for i, ar := range archs {
+				im := imgs[i]
+				var cfg map[string]any
+				_ = json.Unmarshal(im.config, &cfg)
+				mk := func(layer layerT, hist []any, tag string) {
+					bc, _ := json.Marshal(map[string]any{"architecture": ar, "os": "linux", "created": cfg["created"], "config": map[string]any{},
+						"rootfs": map[string]any{"type": "layers", "diff_ids": []string{sha(layer.uc)}}, "history": hist})
+					cmt, mmt := "application/vnd.oci.image.config.v1+json", "application/vnd.oci.image.manifest.v1+json"
+					if c.Docker {
+						cmt, mmt = "application/vnd.docker.container.image.v1+json", "application/vnd.docker.distribution.manifest.v2+json"
+					}
+					bm, _ := json.Marshal(map[string]any{"schemaVersion": 2, "mediaType": mmt, "config": desc(cmt, bc, false), "layers": []any{desc(layer.mt, layer.blob, false)}})
+					a.PutBlob("base/img", bc)
+					a.PutBlob("base/img", layer.blob)
+					a.PutManifest("base/img", tag+"-"+ar, mmt, bm)
+					bd := desc(mmt, bm, false)
+					bd["platform"] = map[string]string{"os": "linux", "architecture": ar}
+					baseEntries[tag] = append(baseEntries[tag], bd)
+					baseSingle[tag] = [2]string{mmt, string(bm)}
+				}
+				var oldHist []any
+				if hs, ok := cfg["history"].([]any); ok {
+					for _, h := range hs {
+						oldHist = append(oldHist, h)
+						if e, _ := h.(map[string]any)["empty_layer"].(bool); !e {
+							break
+						}
+					}
+				}
+				mk(im.layers[0], oldHist, "old")
+				nuc := mkTar([][2]string{{"base/new.txt", uniq + "-newbase-" + ar}}, time.Date(2022, 2, 2, 2, 2, 2, 0, time.UTC))
+				nb := nuc
+				if !c.Plain {
+					nb = gz(nuc)
+					if c.Zstd {
+						nb = zst(nuc)
+					}
+				}
+				mk(layerT{blob: nb, uc: nuc, mt: im.layers[0].mt}, []any{map[string]any{"created": "2022-02-02T02:02:02Z", "created_by": "ADD newbase"}}, "new")
+			}
+			for _, tag := range []string{"old", "new"} {
+				if c.Index {
+					imt := "application/vnd.oci.image.index.v1+json"
+					if c.Docker {
+						imt = "application/vnd.docker.distribution.manifest.list.v2+json"
+					}
+					ib, _ := json.Marshal(map[string]any{"schemaVersion": 2, "mediaType": imt, "manifests": baseEntries[tag]})
+					a.PutManifest("base/img", tag, imt, ib)
+				} else {
+					a.PutManifest("base/img", tag, baseSingle[tag][0], []byte(baseSingle[tag][1]))
+				}
+			}
+		}
 		if c.Index {
 			var ms []any
 			for i, im := range imgs {
 				d := desc(im.mt, im.manifest, c.Data && len(im.manifest) < 900)
 				d["platform"] = map[string]string{"os": "linux", "architecture": archs[i]}
 				ms = append(ms, d)
+			}
+			if c.Attest && !c.Docker {
+				for i, im := range imgs {
+					payload := []byte(fmt.Sprintf("%s-attestation-%d", uniq, i))
+					a.PutBlob("proj/app", payload)
+					a.PutBlob("proj/app", []byte("{}"))
+					ab, _ := json.Marshal(map[string]any{"schemaVersion": 2, "mediaType": "application/vnd.oci.image.manifest.v1+json",
+						"config": desc("application/vnd.oci.empty.v1+json", []byte("{}"), false), "layers": []any{desc("application/vnd.in-toto+json", payload, false)}})
+					a.PutManifest("proj/app", "", "application/vnd.oci.image.manifest.v1+json", ab)
+					d := desc("application/vnd.oci.image.manifest.v1+json", ab, false)
+					d["platform"] = map[string]string{"os": "unknown", "architecture": "unknown"}
+					d["annotations"] = map[string]string{"vnd.docker.reference.type": "attestation-manifest", "vnd.docker.reference.digest": sha(im.manifest)}
+					ms = append(ms, d)
+				}
 			}
 			rootMT = "application/vnd.oci.image.index.v1+json"
 			if c.Docker {
@@ -580,6 +746,10 @@ func runCase(c Case, tmp string, res *lib.Result) string {
 		res.Fail("result-not-well-formed "+classify(msg), msg, c)
 		return ""
 	}
+	if msg := extraChecks(c, tgtStore, r1.digest); msg != "" {
+		res.Fail("result-not-well-formed "+classify(msg), msg, c)
+		return ""
+	}
 	if noop && r1.digest != srcDigest {
 		res.Fail("noop-changed-digest", fmt.Sprintf("options that change nothing produced %s from %s", r1.digest, srcDigest), c)
 		return ""
@@ -588,7 +758,73 @@ func runCase(c Case, tmp string, res *lib.Result) string {
 	if r2.err == nil && r2.digest != r1.digest {
 		res.Fail("not-deterministic", fmt.Sprintf("the same options on the same input gave %s and then %s", r1.digest, r2.digest), c)
 	}
+	for _, o := range c.Opts {
+		if o.K == "rebase" || o.K == "toreferrers" {
+			return "" // the layer provenance model does not know base images or converted entries
+		}
+	}
 	return strings.Join(provenance(c, tgtStore, r1.digest), "\x00")
+}
+
+// extraChecks: what the rebase and the referrer conversion promise beyond well-formedness
+func extraChecks(c Case, get store, d string) string {
+	body, ok := get(d)
+	if !ok {
+		return ""
+	}
+	var m struct {
+		Manifests []struct {
+			Digest      string            `json:"digest"`
+			Annotations map[string]string `json:"annotations"`
+		} `json:"manifests"`
+		Layers []descJ `json:"layers"`
+	}
+	_ = json.Unmarshal(body, &m)
+	has := func(k string) bool {
+		for _, o := range c.Opts {
+			if o.K == k {
+				return true
+			}
+		}
+		return false
+	}
+	if has("rebase") && c.Rebase && !has("rmindex") && !has("rmcreated") && !has("strip") {
+		imgs := []string{d}
+		if len(m.Manifests) > 0 {
+			imgs = nil
+			for _, e := range m.Manifests {
+				imgs = append(imgs, e.Digest)
+			}
+		}
+		for _, id := range imgs {
+			ib, _ := get(id)
+			var im struct {
+				Config *descJ  `json:"config"`
+				Layers []descJ `json:"layers"`
+			}
+			_ = json.Unmarshal(ib, &im)
+			if len(im.Layers) == 0 || im.Config == nil || !(strings.Contains(im.Config.MediaType, "image.config") || strings.Contains(im.Config.MediaType, "container.image")) {
+				continue // an attestation or artifact entry: nothing to rebase
+			}
+			lb, ok := get(im.Layers[0].Digest)
+			if !ok {
+				return "rebase: first layer " + im.Layers[0].Digest + " is not at the target"
+			}
+			tr := tar.NewReader(bytes.NewReader(decompress(lb)))
+			th, err := tr.Next()
+			if err != nil || th.Name != "base/new.txt" {
+				return "rebase: the first layer of the result is not the new base layer"
+			}
+		}
+	}
+	if has("toreferrers") && c.Attest && c.Index && !c.Docker {
+		for _, e := range m.Manifests {
+			if e.Annotations["vnd.docker.reference.type"] != "" {
+				return "referrer conversion: the index still lists a Docker-style attestation entry " + e.Digest
+			}
+		}
+	}
+	return ""
 }
 
 // provenance renders, for each image of the result, where its layers and history entries come from
@@ -610,8 +846,8 @@ func provenance(c Case, get store, d string) []string {
 		}
 		return out
 	}
-	if m.Config == nil {
-		return nil
+	if m.Config == nil || !(strings.Contains(m.Config.MediaType, "image.config") || strings.Contains(m.Config.MediaType, "container.image")) {
+		return nil // an attestation or artifact entry has no layer history to account for
 	}
 	// which original layers the options delete, how many they add
 	deleted := map[int]bool{}
@@ -624,6 +860,8 @@ func provenance(c Case, get store, d string) []string {
 			if !c.Index {
 				deleted[o.N%max(c.Layers, 1)] = true
 			}
+		case "rmcreated": // the layer whose history line is "COPY layer-k", in every image
+			deleted[o.N%max(c.Layers, 1)] = true
 		case "strip":
 			stripped[o.N%3] = true
 		case "addtar":
@@ -642,7 +880,7 @@ func provenance(c Case, get store, d string) []string {
 		if !ok {
 			return nil
 		}
-		tr := tar.NewReader(bytes.NewReader(gunzip(lb)))
+		tr := tar.NewReader(bytes.NewReader(decompress(lb)))
 		id := -1
 		for {
 			th, err := tr.Next()
@@ -722,17 +960,26 @@ func classify(msg string) string {
 	return "what=other"
 }
 
-var optKinds = []string{"annotation", "label", "env", "cfgtime", "layertime", "rmindex", "strip", "addtar", "recompress", "reproducible", "algo512", "tooci", "todocker", "data", "data", "urlrm"}
+var optKinds = []string{"annotation", "label", "env", "cfgtime", "layertime", "rmindex", "strip", "addtar", "recompress", "reproducible", "algo512", "tooci", "todocker", "data", "data", "urlrm",
+	"tozstd", "togzip", "cmd", "entrypoint", "expose", "volume", "label2annot", "promote", "rmcreated", "filetime", "tsmax", "cfgplatform", "buildarg"}
 var noopKinds = []string{"noop-label", "noop-strip", "noop-time", "urlrm"}
 
 func genCase(r *lib.Rand) Case {
-	c := Case{Kind: "mod", Seed: r.U64(), Docker: r.Chance(35), Index: r.Chance(30), Layers: 1 + r.Intn(4), Plain: r.Chance(25), Empties: r.Chance(50), NoHist: r.Chance(10),
+	c := Case{Kind: "mod", Seed: r.U64(), Docker: r.Chance(35), Index: r.Chance(30), Layers: 1 + r.Intn(4), Plain: r.Chance(25), Zstd: r.Chance(25), Empties: r.Chance(50), NoHist: r.Chance(10),
 		Data: r.Chance(30), Refs: r.Chance(25), Target: lib.Pick(r, []string{"same", "same", "repo", "reg", "dir"}), SrcDir: r.Chance(20)}
 	if c.SrcDir && c.Target == "repo" {
 		c.Target = "dir"
 	}
+	c.Rebase = r.Chance(12)
+	c.Attest = c.Index && !c.Docker && r.Chance(40)
+	if c.Rebase {
+		c.Opts = append(c.Opts, Opt{K: "rebase"})
+	}
+	if c.Attest && r.Chance(60) {
+		c.Opts = append(c.Opts, Opt{K: "toreferrers"})
+	}
 	n := r.Intn(6)
-	if r.Chance(15) {
+	if r.Chance(15) && !c.Rebase && len(c.Opts) == 0 {
 		for i := 0; i < 1+r.Intn(2); i++ {
 			c.Opts = append(c.Opts, Opt{K: lib.Pick(r, noopKinds)})
 		}
@@ -746,7 +993,7 @@ func genCase(r *lib.Rand) Case {
 
 func Run(o lib.Opts) {
 	res := lib.NewResult("C13", o.Tier, o.Seed)
-	res.Rule = "one splitmix64 stream: images with 1-4 real tar layers (75% gzip, 25% plain), configs with diff_ids and history (50% with empty-layer entries before layers and at the end, 10% without history), OCI (65%) or Docker media types, 30% two-platform indexes, 30% with inline data on descriptors, 25% with a referrer; source on a registry (80%) or layout; target: same repository, other repository, other registry, layout; 0-5 options from annotation, label, env, config time, layer time, remove layer by index, strip file (one of them empties a layer), add tar layer, recompress, reproducible, sha512, to OCI, to Docker, data limits 0/200/100000, remove external URLs; 15% of the cases use only options that change nothing; each result is audited from the stored bytes, applied a second time on a fresh copy (same digest), the source re-audited and its tag compared; non-trivial = at least one changing option; distinct by case"
+	res.Rule = "one splitmix64 stream: images with 1-4 real tar layers (gzip, 25% plain, 19% zstd; the first layer holds a tar archive as a file), configs with diff_ids and history (50% with empty-layer entries before layers and at the end, 10% without history), OCI (65%) or Docker media types, 30% two-platform indexes (40% of the OCI ones listing a Docker-style attestation manifest per image), 12% with old and new base images stored next to the image, 30% with inline data on descriptors, 25% with a referrer; source on a registry (80%) or layout; target: same repository, other repository, other registry, layout; 0-5 options from annotation, label, env, config time, layer time, remove layer by index, strip file (one of them empties a layer), add tar layer, recompress (none / gzip / zstd), reproducible, sha512, to OCI, to Docker, data limits 0/200/100000, remove external URLs, cmd, entrypoint, expose, volume, label-to-annotation, promote common annotations, remove layer by created-by expression, inner tar file times, timestamp caps, config platform, build-arg removal, rebase onto the new base (first option), conversion of the attestation entries to OCI referrers (first option); 15% of the cases use only options that change nothing; each result is audited from the stored bytes, applied a second time on a fresh copy (same digest), the source re-audited and its tag compared; non-trivial = at least one changing option; distinct by case"
 	if o.Replay != "" {
 		var f struct{ Case Case }
 		b, err := os.ReadFile(o.Replay)
@@ -773,6 +1020,11 @@ func Run(o lib.Opts) {
 		{Kind: "mod", Seed: 62, Layers: 3, Empties: true, Target: "repo", Opts: []Opt{{K: "rmindex", N: 2}}},
 		{Kind: "mod", Seed: 63, Layers: 2, Data: true, Target: "same", Opts: []Opt{{K: "label", N: 1}}},
 		{Kind: "mod", Seed: 64, Layers: 3, Empties: true, Target: "reg", Opts: []Opt{{K: "strip", N: 0}, {K: "addtar", N: 1}}},
+		// fixed: an index listing attestation manifests made layer options that read the image config panic
+		{Kind: "mod", Seed: 65, Index: true, Attest: true, Layers: 2, Empties: true, Target: "repo", Opts: []Opt{{K: "rmcreated", N: 1}}},
+		{Kind: "mod", Seed: 66, Index: true, Attest: true, Layers: 2, Target: "same", Opts: []Opt{{K: "toreferrers"}, {K: "label", N: 1}}},
+		{Kind: "mod", Seed: 67, Layers: 3, Empties: true, Rebase: true, Target: "repo", Opts: []Opt{{K: "rebase"}}},
+		{Kind: "mod", Seed: 68, Layers: 2, Zstd: true, Target: "reg", Opts: []Opt{{K: "togzip"}, {K: "filetime"}}},
 	}
 	n := o.Scale(220, 3000)
 	for i := 0; i < n; i++ {
